@@ -220,12 +220,29 @@ func (e *emitter) add(cs *Case, steps []*stepRec, obs *Obs) {
 
 // execute runs a case in its mode and emits it.
 func (e *emitter) execute(cs *Case, decide func(ready []string, k int) int) *runS {
+	// a hang (5 s without quiescence) is re-executed once before it is reported: on a machine
+	// shared with other checks a goroutine can be starved that long
 	if cs.Mode == "A" {
 		obs := runFree(cs)
+		if obs.Bad != "" {
+			e.meta.Hist("retried")
+			obs = runFree(cs)
+		}
 		e.add(cs, nil, obs)
 		return nil
 	}
 	r, obs := runSched(cs, decide)
+	if obs.Bad != "" {
+		e.meta.Hist("retried")
+		prefix := forced(r.sched)
+		n := len(r.sched)
+		r, obs = runSched(cs, func(ready []string, k int) int {
+			if k < n {
+				return prefix(ready, k)
+			}
+			return decide(ready, k)
+		})
+	}
 	cs.Schedule = r.sched
 	e.add(cs, r.steps, obs)
 	return r
